@@ -22,7 +22,8 @@ RULE = ("objects of every kind (network, grid, graph, system, script, trajectory
         "spec (1-4 species, 0-4 reactions with orders 0-4 per side, empty sides, repeated species, labelled/unlabelled, "
         "scalar or per-environment D/density/chstt/k with and without 'default'; grids 1-3^3 with all boundary "
         "combinations; graphs with own node/edge units; explicit/default state and chemostats; all policies/modes) with "
-        "an independent units system at every level, explicit zero stoichiometric coefficients (first / middle / last); streams and "
+        "an independent units system at every level, values spanning 1e-30 … 1e+23 incl. numbers below 1e-12 (ordinary sizes carried in "
+        "m / km / mol / h) and 15-17 significant digits in every quantity-valued field (compared exactly: repr round trip), explicit zero stoichiometric coefficients (first / middle / last); streams and "
         "the clause each tests: [round trip: dict / JSON text / save+load, absolute and relative paths] modes direct, json, file-abs, "
         "file-rel, file-inline; [serialising again gives the same dictionary] reserialise; [aliases interchangeable] alias + "
         "documented-alias table; [omitted keys take the documented defaults] default + minimal dictionaries; [multi-file layouts, "
@@ -96,15 +97,24 @@ def rand_sys(rng, near=None):
     return (rng.choice(SPACE), rng.choice(TIME), rng.choice(QTY))
 
 
+MANY_DIGITS = [1.0 / 3.0, 0.1 + 0.2, 2.0 / 3.0, 1e-13 / 3.0, 123.45678901234567, 6.02214076e23 / 7.0, 0.000123456789012345678]
+
+
 def rand_val(rng):
     r = rng.random()
-    if r < 0.15:
+    if r < 0.12:
         return 0.0
-    if r < 0.35:
+    if r < 0.27:
         return float(rng.randint(1, 20))
-    if r < 0.8:
+    if r < 0.55:
         return float(Fraction(rng.randint(1, 9999), 10 ** rng.randint(0, 4)))
-    return float(rng.randint(1, 999)) * 10.0 ** rng.randint(-12, 12)
+    if r < 0.68:
+        return float(rng.randint(1, 999)) * 10.0 ** rng.randint(-12, 12)
+    if r < 0.80:      # ordinary physical sizes carried in coarse units (m, km, mol, h): 1e-13 … 1e-30
+        return float(rng.randint(1, 999)) * 10.0 ** rng.randint(-30, -13)
+    if r < 0.93:      # 15-17 significant digits (truncating / rounding writers are invisible on round numbers)
+        return rng.random() * 10.0 ** rng.randint(-20, 6)
+    return rng.choice(MANY_DIGITS)
 
 
 def gen_q(rng, dim, own, allow_text=True):
@@ -418,7 +428,9 @@ def diff(a, b, path=""):
     """first difference between two views (None when equal); numbers exact or within 1e-12 relative"""
     if isinstance(a, Fraction) or isinstance(b, Fraction):
         try:
-            if a == b or close(float(a), b, rel=1e-12):
+            # values are carried without arithmetic through every route (repr round trip): exact, up to 2 ulp for the few
+            # places where the package converts units on the way (string items of arrays)
+            if a == b or close(float(a), b, rel=4.5e-16):
                 return None
         except Exception:  # noqa
             pass
@@ -1406,8 +1418,30 @@ def special_cases(ctx):
           "time_step": {"v": 0.5}, "t_max": "default", "policy": "on_t_sample", "interval": {"v": 1.0}, "seed": 1, "mode": "auto"}
     cases.append(("trajectory", dict(base_traj, script=sc, cgmap=[0, 1], cgmap_np=True), ["file-abs"]))
     cases.append(("trajectory", dict(base_traj, script=sc, cgmap=[0, 1]), ["file-abs", "file-rel", "file-inline"]))
+    # models declared in coarse units with physically ordinary sizes: the numbers carried are 1e-12 … 1e-30, plus many-digit values
+    for us in (["m", "s", "mol"], ["km", "h", "kmol"], ["m", "h", "mol"]):
+        net = {"us": us, "envs": ["cyt", "mem"],
+               "species": [{"label": "A", "us": us, "D": {"scalar": {"v": 5e-13}}, "density": {"env": [["cyt", {"v": 1.0 / 3.0}], ["default", {"v": 2.5e-19}]]},
+                            "chstt": {"scalar": False}},
+                           {"label": "B", "us": us, "D": {"env": [["mem", {"v": 3.3e-16}], ["default", {"v": 0.1 + 0.2}]]}, "density": {"scalar": {"v": 1e-21}},
+                            "chstt": {"scalar": False}}],
+               "reactions": [{"sub": [["A", 1], ["B", 1]], "prod": [["B", 2]], "us": us, "label": "r", "kf": {"scalar": {"v": 3.2e-13}},
+                              "kr": {"env": [["cyt", {"v": 1e-30}], ["mem", {"v": 123.45678901234567}]]}}]}
+        grid = {"type": "grid", "us": us, "w": 2, "h": 1, "d": 1, "cell_env": {"array": [0, 1]}, "cell_vol": {"v": 1e-18}, "bc": {}}
+        graph = {"type": "graph", "us": us, "nodes": [{"us": us, "volume": {"v": 2.5e-19}, "env": 0}, {"us": ["µm", "s", "molecule"], "volume": {"v": 1.0 / 3.0}, "env": 1}],
+                 "edges": [{"us": us, "i": 0, "j": 1, "surface": {"v": 1e-12}, "distance": {"v": 7.7e-7}}]}
+        for sp_ in (grid, graph):
+            sysm = {"us": us, "network": net, "space": sp_, "state": {"values": [1e-21, 2.0 / 3.0, 6.02214076e23 / 7.0, 3e-14]}, "chemostats": [0, 0, 1, 0]}
+            cases.append(("system", sysm, ["direct", "json", "file-abs", "file-rel", "reserialise", "multifile"]))
+            scr = {"us": us, "system": sysm, "t_sample": {"values": [0.0, 1e-15, 1.0 / 3.0]}, "time_step": {"v": 1e-16},
+                   "t_max": {"v": 0.1 + 0.2}, "policy": "on_interval", "interval": {"v": 2.5e-14}, "seed": 2 ** 32 - 1, "mode": "none"}
+            cases.append(("script", scr, ["direct", "json", "file-abs", "reserialise"]))
+            cases.append(("trajectory", {"script": scr, "system": sysm, "t": {"values": [0.0, 1e-15], "sys": us},
+                                         "data": {"values": [1e-21, 2.0 / 3.0, 1e-13 / 3.0, 3e-14, 0.0, 1e-30, 0.1 + 0.2, 5e-13], "sys": us},
+                                         "engine_description": None, "engine_option": None, "cgmap": None, "cgmap_np": False},
+                          ["file-abs", "file-inline"]))
     for kind, spec, modes in cases:
-        check_object(ctx, kind, spec, modes, {}, None)
+        check_object(ctx, kind, spec, modes, {}, ctx.rng)
     # omitted keys of hand-written minimal dictionaries vs the documentation
     minimal_dict_checks(ctx)
 
